@@ -249,7 +249,7 @@ def run(ctx):
     # ---- write-back correspondence -----------------------------------------------------
     r = vlib.rng(ctx.seed, "C07-wb")
     cases = load_corpus()
-    n_gen = 60 if ctx.quick else 600
+    n_gen = 48 if ctx.quick else 600
     for k in range(n_gen):
         cases.append(gen_cases.gen_case(r, f"g{k}"))
     impl = {}
@@ -312,6 +312,15 @@ def run(ctx):
                                        "a borrowed argument's place must receive the call's output port nret+k",
                             "replay": replay_cmd(c["id"])})
     stats["same_typed_borrowed_pairs"] = sum(1 for c in cases if "coq" in c)
+    # a run in which (almost) nothing was compared must not pass: the tie would be vacuous
+    expected_fns = sum(len(c["funcs"]) for c in cases)
+    if model_ok and stats["compared_functions"] < 0.8 * expected_fns:
+        first_err = next((impl[c["id"]].get("error") for c in cases if not impl.get(c["id"], {}).get("ok")), None)
+        ctx.report("wb:too-few-compared", "correspondence",
+                   "the tree under test compiled/traced too few of the generated programs for the write-back correspondence to mean anything",
+                   {"compared_functions": stats["compared_functions"], "expected": expected_fns,
+                    "rejected_by_compiler": stats["rejected_by_compiler"], "untraceable": stats["untraceable"],
+                    "first_compiler_error": first_err}, found_input=False)
     # ---- verdict on the proof side ------------------------------------------------------
     if not info["ok"]:
         if spec_fail:
